@@ -53,12 +53,13 @@ type dumper struct {
 	// interface dispatch: concrete types that flow into interfaces
 	ifaceTypes map[string]types.Type
 	// invoked method names
-	invoked  map[string]bool
-	methodsD map[string]map[string]string
-	globals  map[string]map[string]any
-	files    map[string]bool
-	external map[string]bool
-	msets    map[string][]string
+	invoked   map[string]bool
+	methodsD  map[string]map[string]string
+	globals   map[string]map[string]any
+	files     map[string]bool
+	external  map[string]bool
+	msets     map[string][]string
+	noEnqueue bool
 }
 
 func main() {
@@ -160,6 +161,32 @@ func main() {
 			break
 		}
 	}
+	// package initialisers of every package owning a referenced global: dumped without traversing callees
+	// (the executor evaluates only the slice that initialises the globals it touches)
+	for {
+		pkgsWithGlobals := map[string]bool{}
+		for _, g := range d.globals {
+			pkgsWithGlobals[g["pkg"].(string)] = true
+		}
+		added := false
+		for _, p := range prog.AllPackages() {
+			if !pkgsWithGlobals[p.Pkg.Path()] {
+				continue
+			}
+			initFn := p.Func("init")
+			if initFn == nil || d.seen[initFn] || initFn.Blocks == nil {
+				continue
+			}
+			d.seen[initFn] = true
+			d.noEnqueue = true
+			d.dumpFunc(initFn)
+			d.noEnqueue = false
+			added = true
+		}
+		if !added {
+			break
+		}
+	}
 	// file hashes
 	fileHashes := map[string]string{}
 	var fl []string
@@ -231,6 +258,9 @@ func (d *dumper) shouldDescend(f *ssa.Function) bool {
 
 func (d *dumper) enqueue(f *ssa.Function) {
 	if f == nil || d.seen[f] {
+		return
+	}
+	if d.noEnqueue {
 		return
 	}
 	d.seen[f] = true
